@@ -425,7 +425,8 @@ theorem refill_law (hC : Lawful C VC WC) (hscore : ∀ {c l}, VC c l → VC (C.s
       | none => ls = []
       | some s'' => ∃ ls' m, U ≠ [] ∧ m = Spec.doc U ∧ All2 VC s''.docsets ls' ∧ (∀ li ∈ ls', li ≠ [])
           ∧ SimpleUnion.IsUnion (Spec.seek (m + H) U) ls' ∧ s''.window.Pairwise (· < ·)
-          ∧ (∀ δ, δ ∈ s''.window ↔ ∃ x ∈ U, x < m + H ∧ δ = x - m) ∧ s''.ws = m ∧ s''.sum = s'.sum := by
+          ∧ (∀ δ, δ ∈ s''.window ↔ ∃ x ∈ U, x < m + H ∧ δ = x - m) ∧ s''.ws = m ∧ s''.bucketIdx = 0
+          ∧ s''.sum = s'.sum := by
     unfold refill
     rw [all2_isEmpty h2]
     cases ls with
@@ -477,7 +478,7 @@ theorem refill_law (hC : Lawful C VC WC) (hscore : ∀ {c l}, VC c l → VC (C.s
           exact ⟨li, hli, hx', hge⟩
         · rintro ⟨li, hli, hx, hge⟩
           exact ⟨(hU.2 x).mpr ⟨li, hli, hx⟩, hge⟩
-      exact ⟨ls', m, hUne, rfl, r1, r2, hU', r4, hwmem, rfl, trivial⟩
+      exact ⟨ls', m, hUne, rfl, r1, r2, hU', r4, hwmem, rfl, by simp⟩
 
 
 /-- the refilled window has as many deltas as the union has documents below the new horizon -/
@@ -525,7 +526,7 @@ theorem countLoop_law (hC : Lawful C VC WC) (hscore : ∀ {c l}, VC c l → VC (
       subst hnil
       rw [isUnion_nil hU]; simp
     | some s' =>
-      rintro ⟨ls', m, hUne, hm, r1, r2, hU', r4, r5, _, _⟩
+      rintro ⟨ls', m, hUne, hm, r1, r2, hU', r4, r5, _, _, _⟩
       simp only
       have hUs := hU.1
       have hge : ∀ x ∈ U, m ≤ x := by rw [hm]; exact Exclude.all_ge_doc hUs
